@@ -142,6 +142,7 @@ class S:
                     else: args.append(self.val(x, env)[0])
                 env["__calls"].add(key)
                 mk = MODEL_SER_NAME.get(key, key)
+                if self.expected and key not in self.expected: mk = "src_" + key       # helper without a model term
                 return "(%s %s)" % (mk, " ".join(args)) if args else mk
             raise Unsupported("serializer expression %s" % key)
         if k == "call" and len(e[2]) == 1 and e[2][0] == ("path", ["out"]):      # E(out)
@@ -161,6 +162,10 @@ class S:
                     env2 = dict(env); env2[b] = "bytes"; env2[l] = "N"
                     return "(sbind %s (fun %s => let %s := lenN %s in %s))" % (f, t12.ident(b), t12.ident(l), t12.ident(b), self.ser(tail, env2))
             if not stmts and tail is not None: return self.ser(tail, env)
+            if stmts and tail is not None and all(st[0] == "let" and st[1] == ("pid", "out") and st[2][0] == "try" for st in stmts):
+                # let out = a(out)?; let out = b(out)?; c(out)       -- sequencing through the writer
+                parts = [self.ser(st[2][1], env) for st in stmts] + [self.ser(tail, env)]
+                return "(sall [%s])" % "; ".join(parts)
             if stmts and all(st[0] == "let" and st[1][0] == "pid" and not self.T.has_try(st[2]) for st in stmts) and tail is not None:
                 # let x = <serializer or value>; ... tail      (named intermediates)
                 env2 = dict(env); lets = []
@@ -174,6 +179,8 @@ class S:
                 for nm, v in reversed(lets): t = "(let %s := %s in %s)" % (nm, v, t)
                 return t
             raise Unsupported("block in a serializer")
+        if k == "iflet" and e[4] is not None:
+            return self.ser(("match", e[2], [(e[1], None, e[3]), (("pwild",), None, e[4])]), env)
         if k == "match":
             sv, sty = self.val(e[1], env)
             arms = []
@@ -233,9 +240,11 @@ def main():
     out = os.path.join(VERIF, "coq", "gen")
     T = t12.Translator(REPO)
     s = S(T)
+    s.expected = json.load(open(os.path.join(VERIF, "tools", "t13_expected.json"))) if os.path.exists(os.path.join(VERIF, "tools", "t13_expected.json")) else {}
     done, failed = [], {}
-    for n, it in sorted(s.fns.items()):
-        if not s.is_ser_fn(it): continue
+    names = [n for n, it in sorted(s.fns.items()) if s.is_ser_fn(it)]
+    for n in [x for x in names if s.expected and x not in s.expected] + [x for x in names if not (s.expected and x not in s.expected)]:
+        it = s.fns[n]
         try: done.append(s.translate(n))
         except Unsupported as e: failed[n] = str(e)
         except (IndexError, KeyError, TypeError, AttributeError) as e: failed[n] = "internal: %r" % (e,)
@@ -246,9 +255,11 @@ def main():
            "From TlsModel Require Import Bytes Values Serialize SerExtra SrcGlue SrcSerialize TieTactics.", "Open Scope N_scope.", ""]
     for d in done:
         L.append("Definition src_%s %s : ser :=\n  %s.\n" % (d["name"], " ".join(d["binders"]), d["term"]))
-        if expected.get(d["name"], "tied") != "tied": continue
-        Tie.append("Lemma stie_%s : forall %s, src_%s %s = %s %s.\nProof. intros; unfold src_%s, %s; timeout 60 ser_tie. Qed.\n" % (
+        if expected.get(d["name"], "tied") != "tied" or (expected and d["name"] not in expected): continue
+        Tie.append("Lemma stie_%s : forall %s, src_%s %s = %s %s.\nProof. intros; unfold src_%s, %s; HELPERS__timeout 60 ser_tie. Qed.\n" % (
             d["name"], " ".join(d["binders"]) or "(_ : unit)", d["name"], " ".join(d["args"]), MODEL_SER_NAME.get(d["name"], d["name"]), " ".join(d["args"]), d["name"], MODEL_SER_NAME.get(d["name"], d["name"])))
+    helpers = [d["name"] for d in done if expected and d["name"] not in expected]
+    Tie = [t.replace("HELPERS__", "".join("try unfold src_%s; " % h for h in reversed(helpers))) for t in Tie]
     def write_if_changed(name, content):
         p = os.path.join(out, name)
         if not os.path.exists(p) or open(p).read() != content: open(p, "w").write(content)
@@ -264,8 +275,8 @@ def main():
     for n, st in expected.items():
         if st == "tied" and n in failed: dev.append("UNTRANSLATABLE T13: %s: %s" % (n, failed[n]))
         if n not in failed and n not in [d["name"] for d in done]: dev.append("UNTRANSLATABLE T13: %s: function no longer present in the source" % n)
-    for n in [d["name"] for d in done] + list(failed):
-        if expected and n not in expected: dev.append("UNTRANSLATABLE T13: %s: serializer function of the source without a model term to tie it to" % n)
+    for n in failed:
+        if expected and n not in expected: dev.append("UNTRANSLATABLE T13: %s: helper outside the subset: %s" % (n, failed[n]))
     rep = dict(translated={d["name"]: d["calls"] for d in done}, untranslatable=failed, deviations=dev)
     rp = os.path.join(out, "t13_report.json")
     with open(rp + ".tmp%d" % os.getpid(), "w") as f: json.dump(rep, f, indent=1)
